@@ -32,6 +32,19 @@ func capOf(p *RPlan) int {
 // delivery clauses.
 func oracleC14(p *RPlan, res *RResult) *common.Fail {
 	evs := res.Events
+	if res.ServeStalled > 0 {
+		unread := 0
+		for _, e := range evs {
+			if e.K == "dlv" && e.Note == "ind" {
+				unread++
+			}
+			if e.K == "read" {
+				unread--
+			}
+		}
+		return failEv(evs, len(evs)-1, "serve-stalled", "the client stopped taking frames from its socket: %d frames (routing, lost and busy indications among them) were still waiting 5 s after the last one was handed over, with the client open, no Send pending and %d indications unread by the application - lost and busy indications are not acted upon and Close cannot close Inbound",
+			res.ServeStalled, unread)
+	}
 	cp := capOf(p)
 	var retained, resendQ []int
 	pending := map[int]bool{}
@@ -202,13 +215,25 @@ func oracleC13(p *RPlan, res *RResult) (*common.Fail, string) {
 					break
 				}
 			}
-			if !held {
-				inconclusive = "busy at idle: the lock was never seen held (wait 0 or probe missed it)"
+			// the serve loop went on to the next frame: it has dealt with the indication, and the senders were held
+			// back until then - nothing that is transmitted from here on was "already inside Send"
+			handledAt := -1
+			for j, x := range evs[i:] {
+				if x.K == "note" && x.Note == "busy-handled" {
+					handledAt = i + j
+					break
+				}
+				if x.K == "inj" && j > 0 {
+					break
+				}
+			}
+			if !held && handledAt < 0 {
+				inconclusive = "busy at idle: the lock was never seen held and the serve loop was not seen to move on"
 				continue
 			}
 			for _, oi := range outs {
-				if oi > i && evs[oi].T < e.T+wait {
-					return failEv(evs, oi, "busy-ignored", "a busy indication announcing %d ms was handed over at %.3f ms while the client was idle and the send lock was then seen held; "+
+				if oi > i && (held || oi > handledAt) && evs[oi].T < e.T+wait {
+					return failEv(evs, oi, "busy-ignored", "a busy indication announcing %d ms was handed over at %.3f ms while the client was idle and had been dealt with by the serve loop (send lock seen held, or the next frame taken) before any sender was released; "+
 						"tag %d was nevertheless transmitted at %.3f ms, %.3f ms into the silence of at least %.3f ms",
 						e.N, float64(e.T)/1e6, evs[oi].Tag, float64(evs[oi].T)/1e6, float64(evs[oi].T-e.T)/1e6, float64(wait)/1e6), ""
 				}
